@@ -187,14 +187,15 @@ PROPERTIES = {
                      "non-finite floats (strings on the wire) are reported under C06"]),
     "C19": dict(mode="G", load_pkgs=["./internal/openapiv3"], pkgpath=MOD + "/internal/openapiv3", test_pkg="./internal/openapiv3", test_pkgname="openapiv3",
                 init=DEFAULT_INIT,
-                overlay={"internal/openapiv3/zz_verif_c19.go": "harness/c19/c19_rules.go", "internal/openapiv3/zz_verif_c19f.go": "harness/c19/c19_float.go"},
+                overlay={"internal/openapiv3/zz_verif_c19.go": "harness/c19/c19_rules.go", "internal/openapiv3/zz_verif_c19f.go": "harness/c19/c19_float.go", "internal/openapiv3/zz_verif_c19w.go": "harness/c19/c19_wide.go"},
                 harnesses=[dict(func="VerifC19Int32", reach=["C19/int32/decided", "C19/int32/exclusive"], quick=dict(budget=200), thorough=dict(budget=600)),
                            dict(func="VerifC19Uint32", reach=["C19/uint32/decided"], quick=dict(budget=200), thorough=dict(budget=600)),
                            dict(func="VerifC19Collections", reach=["C19/collections/decided"], quick=dict(budget=200), thorough=dict(budget=600)),
                            dict(func="VerifC19String", reach=["C19/string/decided"], quick=dict(budget=200), thorough=dict(budget=600)),
-                           dict(func="VerifC19Float", reach=["C19/float/bounds", "C19/float/const-in"], quick=dict(budget=100), thorough=dict(budget=300))],
+                           dict(func="VerifC19Float", reach=["C19/float/bounds", "C19/float/const-in"], quick=dict(budget=100), thorough=dict(budget=300)),
+                           dict(func="VerifC19Wide64", reach=["C19/wide64/decided"], quick=dict(budget=100), thorough=dict(budget=300))],
                 bounds_text={"quick": "int32/uint32: lower bound in {none,gte,gt} x upper bound in {none,lte,lt} x const x in-list of 0..2 values, all values and the probe over the full 32-bit range; "
-                                      "collections: min/max items/pairs < 2^62, sizes 0..3; strings: min/max length < 2^62 (probe length as a number), const/in with strings <= 4, 8 well-known formats"},
+                                      "64-bit kinds (uint64/fixed64/sint64/sfixed64/int64): one gte/gt/lte/lt rule with bound and probe from a table of 9 values spanning the whole range of the kind (all exactly representable as float64); collections: min/max items/pairs < 2^62, sizes 0..3; strings: min/max length < 2^62 (probe length as a number), const/in with strings <= 4, 8 well-known formats"},
                 assumptions=["rule pairs with upper bound below lower bound (buf.validate's reversed-range semantics) are assumed away",
                              "the schema is read from the base.Schema object the real code fills (keywords Minimum/Maximum/ExclusiveMinimum/ExclusiveMaximum/Const/Enum/Min-MaxLength/Items/Properties/UniqueItems/Format); its type pairing (string-encoded int64), float/double kinds, pattern and YAML rendering of const/enum scalars are not part of this check yet"]),
     "C14": dict(G_HTTPGEN,
